@@ -39,11 +39,13 @@ type C18Case struct {
 	// LinkOut: the package directory holds a symbolic link "current" to
 	// elsewhere/releases/v1 and -out goes through it and "..".
 	LinkOut bool `json:"link_out,omitempty"`
+	// Env: what go generate exports besides GOFILE (the GOFILE forms)
+	Env []string `json:"env,omitempty"`
 }
 
 var c18Priors = []string{"none", "same", "stale", "empty", "foreign", "failed-run-before", "dry-run-before"}
 
-var c18Forms = []string{"rel-pkgdir", "rel-modroot", "abs", "gofile", "gofile-overridden", "symlink-modroot", "gofile-with-dir", "setup-is-link"}
+var c18Forms = []string{"rel-pkgdir", "rel-modroot", "abs", "gofile", "gofile-overridden", "symlink-modroot", "gofile-with-dir", "setup-is-link", "go-generate-from-parent"}
 var c18Outs = []string{"none", "same-dir", "subdir", "dotdot-outside"}
 
 func genC18(cfg Config, ws *WorldSet, accepted []int, i int) C18Case {
@@ -125,6 +127,20 @@ func genC18(cfg Config, ws *WorldSet, accepted []int, i int) C18Case {
 		iv.OutPath = "{W}/elsewhere/releases/" + outName
 	}
 	c := C18Case{World: world, Inv: iv, Form: c18Forms[fm], OutKind: c18Outs[ok], Canon: ws.Canon[wi].Out, Bin: "plain", LinkOut: linkOut}
+	// the GOFILE forms run in the environment go generate provides: GOPACKAGE is the
+	// package of the file holding the directive - the setup file's own package when
+	// the directive sits in the package directory, another one when it sits in the
+	// parent directory's gen.go
+	switch c.Form {
+	case "gofile", "gofile-overridden", "gofile-with-dir":
+		c.Env = []string{"GOPACKAGE=" + pkgNameOf(world.Files[world.Setup]), "GOLINE=3", "DOLLAR=$", "GOARCH=amd64", "GOOS=linux"}
+	case "go-generate-from-parent":
+		gp := "tools"
+		if cwd == pkgDir {
+			gp = pkgNameOf(world.Files[world.Setup])
+		}
+		c.Env = []string{"GOPACKAGE=" + gp, "GOLINE=7", "DOLLAR=$", "GOARCH=amd64", "GOOS=linux"}
+	}
 	// rotate systematically so that every (flag set, prior) pair occurs for every world
 	c.Prior = c18Priors[(fs+ok+fm+(i/per))%len(c18Priors)]
 	if r.Chance(1, 3) {
@@ -199,7 +215,7 @@ func execC18(env *sim.Env, c C18Case) CaseResult {
 	}
 	defer env.DropWorldDir(root)
 	iv := c.Inv
-	run := Step{Op: "run", Inv: &iv, Bin: c.Bin, Plan: c.Plan}
+	run := Step{Op: "run", Inv: &iv, Bin: c.Bin, Plan: c.Plan, Env: c.Env}
 	var steps []Step
 	nHist := 0 // steps of a prior history that leave nothing at the output path
 	nPreLink := 0
@@ -462,7 +478,7 @@ func runC18(cfg Config, args []string) int {
 		Exec:   func(c C18Case) CaseResult { return execC18(env, c) },
 		Shrink: shrinkC18,
 		Rule: "for every accepted world (fixture and synthetic, incl. setup files named with several dots and nested package directories) the complete product {-dry} x {-print} x {-log} x {-out: none, other name in the same directory, existing sub-directory, a directory outside the module reached with ..} x " +
-			"{input as argument relative to the package dir, relative to the module root, absolute, GOFILE only, GOFILE set but another argument given, relative to the module root entered through a symbolic link, GOFILE with directory components, the setup file's name being a symbolic link to a file kept elsewhere} (half of the command lines with the boolean flags in their other standard spellings: --x, -x=true, -x=1, explicit =false, shuffled, -- before the input) is run in a fresh world whose output path is, in rotation, empty / holds the result of an earlier identical run / holds an older result, " +
+			"{input as argument relative to the package dir, relative to the module root, absolute, GOFILE only, GOFILE set but another argument given, relative to the module root entered through a symbolic link, GOFILE with directory components, the setup file's name being a symbolic link to a file kept elsewhere, a go:generate directive in the parent directory's package (GOFILE and GOPACKAGE describe that file, the input is an argument); the GOFILE forms with the variables go generate exports} (half of the command lines with the boolean flags in their other standard spellings: --x, -x=true, -x=1, explicit =false, shuffled, -- before the input) is run in a fresh world whose output path is, in rotation, empty / holds the result of an earlier identical run / holds an older result, " +
 			"and compared with a reference model of the CLI built on the canonical run's bytes B. distinct_nontrivial counts distinct (world, flag set, input form, -out kind, prior state) tuples.",
 		Assume:   []string{"one trailing newline after the code on stdout is accepted under -print", "for -out into another directory the file is compared with the same run's stdout, since goimports legitimately consults the target directory", "the log's name is checked only as 'same directory, named after the output, .log'"},
 		Extra:    map[string]any{"components_real": componentsReal, "components_simulated": []string{"process environment (GOFILE), cwd, argv, stdout/stderr pipes", "marker entropy in a third of the runs"}, "seam": env.Seam, "accepted_worlds": len(accepted), "simulated_time": "not applicable"},
